@@ -239,6 +239,18 @@ def illformed_case(item):
                 t.apply(["next"])
             path = [] if spec["shape"] == "T1" else ["s1"]
             r = _expect_raise(t, lambda: (t.apply(["transact", path, "a", 2.0]), t.root.value, t.node(path).price), cls)
+    elif cls == "zero_base_after_unwind":
+        # a fixed income book that had notional, sells its notional leg but keeps a hedge that
+        # still makes P&L: the return is again on a zero base
+        spec = {"shape": "F1", "integer": integer, "capital": 0.0}
+        t = T.Tree(spec)
+        t.apply(["transact", [], "f", 8.0])
+        t.apply(["transact", [], "h", 2.0])
+        t.root.value
+        t.apply(["next"])
+        t.apply(["close", [], "f"])
+        t.root.value
+        r = _expect_raise(t, lambda: (t.apply(["next"]), t.root.value, t.root.price), cls)
     elif cls == "fi_under_mv_parent":
         try:
             child = bt.FixedIncomeStrategy("f", [], children=[bt.FixedIncomeSecurity("a")])
@@ -297,6 +309,7 @@ def situations():
             out.append({"cls": "zero_base", "fi": True, "date": k, "integer": integer})
         for col in ("a", "b", "c"):
             out.append({"cls": "duplicate_columns", "col": col, "integer": integer})
+        out.append({"cls": "zero_base_after_unwind", "integer": integer})
     for how in ("nodes", "strings", "strategies"):
         out.append({"cls": "duplicate_siblings", "how": how})
     for depth in (1, 2, 3):
